@@ -4,6 +4,10 @@ import IoraModel.Lemmas.RingSpsc
 import IoraModel.Lemmas.BlockingQueue
 import IoraModel.Lemmas.BlockingQueueLogs
 import IoraModel.Lemmas.BlockingQueueBroadcast
+import IoraModel.Lemmas.BlockingQueueDestroy
+import IoraModel.Lemmas.RingSpscObs
+import IoraModel.Lemmas.RingThrow
+import IoraModel.Model.BqSkelTrace
 /-!
 # C10 — Bounded queues are FIFO, lossless, capacity-bounded and race-free
 
@@ -39,6 +43,25 @@ theorem R1_ring_bounded {α : Type} (r : Ring.Ring α) (h : Ring.WF r) :
 theorem R1_nextPowerOfTwo (v : UInt64) (hv : v.toNat ≤ 2 ^ 63) :
     ∃ k, k ≤ 63 ∧ (Ring.nextPowerOfTwo v).toNat = 2 ^ k ∧ v.toNat ≤ 2 ^ k ∧ (1 < v.toNat → 2 ^ k < 2 * v.toNat) :=
   Ring.nextPowerOfTwo_spec v hv
+
+/-- … and above `2^63`, where no power of two fits into 64 bits, the code's 64-bit arithmetic wraps to 0: such a ring has
+capacity 0 and `mask = 2^64 - 1`; `head - tail >= 0` is always true, so it refuses every push (it never indexes a slot) -/
+theorem R1_nextPowerOfTwo_wraps (v : UInt64) (hv : 2 ^ 63 < v.toNat) :
+    Ring.nextPowerOfTwo v = 0 ∧ ∀ x : Nat, (Ring.tryPush (Ring.mkDynamic 0 v) x).1 = false := by
+  have h := Ring.nextPowerOfTwo_wraps v hv
+  refine ⟨h, fun x => ?_⟩
+  simp [Ring.tryPush, Ring.mkDynamic, Ring.mkStatic, h]
+
+/-- **The model's `nextPowerOfTwo` and `resize` ARE the source's** (tie, not a property): `Ring.nextPowerOfTwo` is defined
+as a fold over the shift list the translator extracts (`Gen.Orders.npotShifts`), `Ring.resize` evaluates the expression
+trees extracted for `count`, `toCopy`, `startTail`, `dropped` and the two final stores (`Gen.Orders.resize*`).  On the
+unmodified source they unfold to the hand-written forms the R1 proofs reason about; a dropped or changed shift
+(`v |= v >> 16`), or a changed window start (`count - newCapacity` for `head - newCapacity`, seeded change C10-d) makes
+these `rfl`s - and with them every R1 theorem - fail to build. -/
+theorem R1_arithmetic_is_the_sources :
+    Gen.Orders.npotShifts = [1, 2, 4, 8, 16, 32] ∧
+    (∀ {α : Type} (r : Ring.Ring α) (n : UInt64), Ring.resize r n = Ring.resizeRef r n) :=
+  ⟨rfl, fun r n => Ring.resize_unfold r n⟩
 
 /-! ## Ring buffers, one producer and one consumer (R2, R3) -/
 
@@ -83,6 +106,105 @@ theorem R2_returned_refusals_genuine (c : Spsc.Cfg) (p : List Spsc.POp) (q : Lis
   have I := Spsc.inv_run c as (Spsc.init p q) (Spsc.inv_init c p q)
   exact ⟨fun rest h1 h2 h3 => Spsc.push_returns_zero_fresh c s x rest I h1 h2 h3,
          fun rest h1 h2 h3 => Spsc.pop_returns_empty_fresh c s rest I h1 h2 h3⟩
+
+/-- **R2 (`size()` / `empty()` / `full()` called concurrently by the producer or by the consumer).**  `size()` is two relaxed
+loads (`_head`, then `_tail`; either may be stale) and a `size_t` subtraction.  In EVERY reachable state of every
+interleaving: whatever a call by the producer can return lies between the true number of items and `C` (it may
+over-estimate), whatever a call by the consumer can return lies between 0 and the true number (it may under-estimate) -
+never above the capacity; hence `full() == true` seen by the consumer and `empty() == true` seen by the producer are
+genuine.  Hypothesis: `_head < 2^64` (no counter overflow). -/
+theorem R2_size_same_side (c : Spsc.Cfg) (p : List Spsc.POp) (q : List Spsc.QOp) (as : List Spsc.Act) :
+    let s := Spsc.run c (Spsc.init p q) as
+    s.head < 2 ^ 64 →
+    (∀ ret, Spsc.ProducerSizeRet s ret → s.head - s.tail ≤ ret ∧ ret ≤ c.C) ∧
+    (∀ ret, Spsc.ConsumerSizeRet s ret → ret ≤ s.head - s.tail ∧ ret ≤ c.C) ∧
+    (∀ ret, Spsc.ConsumerSizeRet s ret → ret ≥ c.C → s.head - s.tail = c.C) ∧
+    (∀ ret, Spsc.ProducerSizeRet s ret → ret = 0 → s.head = s.tail) := by
+  intro s hb
+  have I := Spsc.inv_run c as (Spsc.init p q) (Spsc.inv_init c p q)
+  exact ⟨(Spsc.size_same_side c s I hb).1, (Spsc.size_same_side c s I hb).2,
+         (Spsc.full_empty_same_side c s I hb).1, (Spsc.full_empty_same_side c s I hb).2⟩
+
+/-- non-vacuity: in the initial state both callers can get the answer 0 -/
+example : Spsc.ProducerSizeRet (Spsc.init [] []) 0 ∧ Spsc.ConsumerSizeRet (Spsc.init [] []) 0 :=
+  ⟨⟨0, by decide, by decide, by decide⟩, ⟨0, by decide, by decide, by decide⟩⟩
+
+/-- **… but not by a third thread** (observation; the header calls `size()` "approximate"): an observer that loads `_head`
+before a push/pop pair and `_tail` after it sees `tail > head`; its `size()` wraps to `2^64 - 1`, far above `C` -/
+theorem R2_size_third_thread_wraps :
+    let c : Spsc.Cfg := { C := 1, pAcq := true, qAcq := true, pRel := true, qRel := true }
+    let s1 := Spsc.init [.push 1] [.pop]
+    let s2 := Spsc.run c s1 [.pLoad 0, .pWrite, .pStore, .qLoad 1, .qRead, .qStore]
+    s1.head < s2.tail ∧ Spsc.sizeRet s1.head s2.tail = 2 ^ 64 - 1 :=
+  Spsc.third_thread_size_wraps
+
+/-- **R2 (`peek` under concurrency).**  In every reachable state of every interleaving, a `peek` that completes returns
+exactly the oldest item(s) in flight at that moment (`n ≤ 1` of them: nothing when it saw an empty ring) - the item the
+next `tryPop` will deliver - and consumes nothing (`_tail` and the received log are unchanged). -/
+theorem R2_peek_returns_oldest (c : Spsc.Cfg) (p : List Spsc.POp) (q : List Spsc.QOp) (as : List Spsc.Act)
+    (hs n : Nat) (got : List Spsc.Val) (rest : List Spsc.QOp) :
+    let s := Spsc.run c (Spsc.init p q) as
+    s.qPc = .reading hs n got → s.qTodo = .peek :: rest → got.length = n →
+    (Spsc.step c s .qStore).qRets = s.qRets ++ [(Spsc.inflight s).take n] ∧ (Spsc.step c s .qStore).recv = s.recv ∧
+    (Spsc.step c s .qStore).tail = s.tail ∧ n ≤ (Spsc.inflight s).length := by
+  intro s h1 h2 h3
+  exact Spsc.peek_returns_oldest c s (Spsc.inv_run c as (Spsc.init p q) (Spsc.inv_init c p q)) hs n got rest h1 h2 h3
+
+/-- non-vacuity: one item pushed, the consumer is about to complete a `peek` -/
+example :
+    let c : Spsc.Cfg := { C := 1, pAcq := true, qAcq := true, pRel := true, qRel := true }
+    let s := Spsc.run c (Spsc.init [.push 7] [.peek]) [.pLoad 0, .pWrite, .pStore, .qLoad 1, .qRead]
+    s.qPc = .reading 1 1 [7] ∧ s.qTodo = [.peek] ∧ Spsc.inflight s = [7] := by
+  decide
+
+/-! ## Rings of an element type whose assignment may throw (every `noexcept(is_nothrow_…)` method, `resize`) -/
+
+/-- **count stays consistent.**  A ring call interrupted by an exception from the element's copy/move assignment leaves
+`_head`, `_tail`, `_capacity`, `_mask` exactly as they were. -/
+theorem RT_throw_keeps_counters (r : Ring.Ring RingT.Cell) (arm : Nat) (o : RingT.TOp)
+    (h : RingT.isThrow (RingT.stepT r arm o).2 = true) :
+    (RingT.stepT r arm o).1.head = r.head ∧ (RingT.stepT r arm o).1.tail = r.tail ∧
+    (RingT.stepT r arm o).1.cap = r.cap ∧ (RingT.stepT r arm o).1.mask = r.mask :=
+  RingT.throw_keeps_counters r arm o h
+
+/-- **strong guarantee where the code has it.**  A throwing `tryPush`, `tryPop` or `peek` changes nothing; a throwing
+`tryPushBatch` changes only slots beyond `_head`: the FIFO content the ring stands for is the same. -/
+theorem RT_strong_guarantee_partial (r : Ring.Ring RingT.Cell) (h : Ring.WF r) (arm : Nat) (x : RingT.Cell) (xs : List RingT.Cell)
+    (ho : r.head.toNat + xs.length < 2 ^ 64) :
+    (RingT.isThrow (RingT.tryPush r arm x).2 = true → (RingT.tryPush r arm x).1 = r) ∧
+    (RingT.isThrow (RingT.tryPop r arm).2 = true → (RingT.tryPop r arm).1 = r) ∧
+    (RingT.isThrow (RingT.peek r arm).2 = true → (RingT.peek r arm).1 = r) ∧
+    (RingT.isThrow (RingT.tryPushBatch r arm xs).2 = true → Ring.abs (RingT.tryPushBatch r arm xs).1 = Ring.abs r) :=
+  let ⟨a, b, c⟩ := RingT.single_item_throw_unchanged r arm x
+  ⟨a, b, c, RingT.pushBatch_throw_content r h arm xs ho⟩
+
+/-- non-vacuity: the second assignment of a 3-item batch into an empty 4-slot ring throws -/
+example : RingT.isThrow (RingT.tryPushBatch (Ring.mkStatic none 4) 2 [some 1, some 2, some 3]).2 = true := by decide
+
+/-- **what the code does in `tryPopBatch` and `resize`** (OBSERVATION: exception safety of the element type is not part of
+the property as stated, whose quantifier ranges over schedules and histories of queue operations; recorded because the
+moved-from elements are afterwards handed out as items).  The full statement - after an exception the ring still stands
+for the same content - is FALSE: with 1,2,3,4 queued and the third move throwing, `tryPopBatch` leaves 1 and 2 in the
+caller's array AND two moved-from husks at the front of the ring (`tryPop` returns them), `resize` loses 1 and 2 in the
+abandoned new buffer and leaves the two husks. -/
+theorem RT_strong_guarantee_refuted :
+    ¬ RingT.strong_guarantee_statement ∧
+    ((RingT.tryPopBatch RingT.four 3 4).2 = .threw 2 [some 1, some 2] ∧
+     (Ring.abs (RingT.tryPopBatch RingT.four 3 4).1).items = [none, none, some 3, some 4] ∧
+     (RingT.tryPop (RingT.tryPopBatch RingT.four 3 4).1 0).2 = .ok (.item (some none))) ∧
+    ((RingT.resize RingT.four 3 8).2 = .threw 2 [] ∧ (RingT.resize RingT.four 3 8).1.cap = 4 ∧
+     (Ring.abs (RingT.resize RingT.four 3 8).1).items = [none, none, some 3, some 4]) :=
+  ⟨RingT.strong_guarantee_refuted, RingT.popBatch_throw_witness, RingT.resize_throw_witness⟩
+
+/-- with nothing armed the throwing-element model gives the plain ring's answers and counters (so R1 speaks about it) -/
+theorem RT_unarmed_agrees (r : Ring.Ring RingT.Cell) (x : RingT.Cell) (xs : List RingT.Cell) (n : Nat) (m : UInt64) :
+    RingT.tryPush r 0 x = ((Ring.tryPush r x).2, .ok (.bool (Ring.tryPush r x).1)) ∧
+    RingT.tryPushBatch r 0 xs = ((Ring.tryPushBatch r xs).2, .ok (.count (Ring.tryPushBatch r xs).1)) ∧
+    (RingT.tryPopBatch r 0 n).2 = .ok (.items (Ring.tryPopBatch r n).1) ∧
+    (RingT.tryPopBatch r 0 n).1.tail = (Ring.tryPopBatch r n).2.tail ∧
+    (RingT.tryPop r 0).2 = .ok (.item (Ring.tryPop r).1) ∧ (RingT.tryPop r 0).1.tail = (Ring.tryPop r).2.tail ∧
+    RingT.resize r 0 m = ((Ring.resize r m).2, .ok (.count (Ring.resize r m).1.toNat)) :=
+  RingT.unarmed_agrees r x xs n m
 
 /-- non-vacuity: a full 1-slot ring refuses the second push with 0 -/
 example :
@@ -291,13 +413,45 @@ theorem Q3_close_is_broadcast_instance (cap : Nat) (ps : List (List BQ.Call)) (s
     (Monitor.run (BQ.prog true) (BQ.init cap ps) sched).data.closed = false :=
   BQ.close_deadlocked cap ps sched hd t cv ht hcv ha
 
+/-! ## Destruction (`~BlockingQueue()` = `close()`, then the members are gone) -/
+
+/-- **Q5 (destruction, full statement - FALSE).**  "When the destructor has returned every other thread is out of the
+object" does not hold: `close()` wakes a blocked `dequeue` (Q3), but when the destroying thread is finished the waiter is
+merely *woken* and still has to re-acquire `_mutex` - a member of the destroyed object.  This is the C++ lifetime rule
+(the caller must join/quiesce its threads first), not a defect of the class: an observation. -/
+theorem Q5_destroy_with_callers_inside_refuted :
+    ¬ BQ.destroy_statement ∧
+    (let s := Monitor.run (BQ.prog true) (BQ.init 1 [[.dequeue], [.close]]) BQ.destroySchedule
+     (s.thr 1).loc.pc = .finished ∧ (s.thr 0).status = .woken BQ.M false false ∧ (s.thr 0).loc.pc = .sleepNE) :=
+  ⟨BQ.destroy_refuted, BQ.destroy_witness⟩
+
+/-- **Q5 (destruction, partial).**  If every thread other than the destroyer is out of the object (finished, nothing left
+to call), then under EVERY continuation - the destructor's `close()` with its two `notify_all` included - none of them
+ever moves again: nobody but the destroyer touches the members from then on. -/
+theorem Q5_destroy_partial (d : Monitor.Tid) (sched : List Monitor.Choice) (s : Monitor.State BQ.Data BQ.Loc)
+    (h : ∀ t, t ≠ d → BQ.Gone (s.thr t)) (t : Monitor.Tid) (ht : t ≠ d) :
+    (Monitor.run (BQ.prog true) s sched).thr t = s.thr t ∧ BQ.Gone ((Monitor.run (BQ.prog true) s sched).thr t) :=
+  BQ.destroy_partial true d sched s h t ht
+
+/-- non-vacuity: the hypothesis holds e.g. for a destroyer next to a thread with an empty program that has started -/
+example : BQ.Gone ((Monitor.run (BQ.prog true) (BQ.init 1 [[], [.close]]) [.run 0 0]).thr 0) := by
+  unfold BQ.Gone
+  decide
+
 /-! ## Blocking queue: the source still has the lock/notify skeleton the model mirrors -/
 
 /-- the skeleton extracted from the working tree is the one the monitor model was written against -/
 theorem skeleton_conforms : Gen.BqSkel.skeleton = BQ.expected := by decide
 
-/-- the data members are the modelled ones (the translator additionally insists on `const std::size_t _maxSize;`, on no
-assignment to it, and on no member function it does not know) -/
+/-- **the monitor PROGRAM is the source's, event for event**: the lock / wait / unlock / notify trace of every call of
+`BQ.prog true` (run alone, through the wait where the method has one) equals the projection of the EXTRACTED skeleton of
+the corresponding source method to those events (13 methods: `queue`×2, `tryQueue`×4, `dequeue`×2, `tryDequeue`, `close`,
+`size`, `empty`, `full`).  Unlike `skeleton_conforms` this compares the extracted facts with the model the Q theorems are
+about, not with a hand-written list. -/
+theorem model_trace_is_skeleton : BQ.modelTraceIsSkeleton Gen.BqSkel.skeleton = true := by decide
+
+/-- the data members PARSED from the class (declaration order) are the modelled ones (the translator additionally insists on
+`const std::size_t _maxSize;`, on no assignment to it, and on no member function it does not know) -/
 theorem members_conform :
     Gen.BqSkel.members = ["_mutex", "_condNotEmpty", "_condNotFull", "_queue", "_maxSize", "_closed"] := by decide
 
